@@ -82,16 +82,26 @@ Definition c17_logout_cls (c : bool * bs * bs) : N :=
 
 (* channel cases: (url.Parse of the form value failed?, federated flow?, form value, other
    channels as (kind, name, value) with kind 0 = cookie, 1 = header, 2 = non-form body,
-   3 = path suffix, observed Location) *)
+   3 = path suffix, 4 = multipart field, observed Location).
+   A multipart field named like the parameter is part of r.Form exactly when the handler has not
+   called ParseForm before FormValue (net/http); which of the two holds is not modelled: the case
+   agrees with the model when the Location is the model's for [lr_form] as given or for
+   [lr_form := Some field value] — both same-origin by c17_channels_same_origin. *)
 Definition chan_case := (bool * bool * option bs * list (N * bs * bs) * bs)%type.
 Definition chans_of_kind (k : N) (l : list (N * bs * bs)) : list (bs * bs) :=
   map (fun c => (snd (fst c), snd c)) (filter (fun c => fst (fst c) =? k) l).
 Definition req_of_case (form : option bs) (l : list (N * bs * bs)) : login_req :=
   {| lr_form := form; lr_cookies := chans_of_kind 0 l; lr_headers := chans_of_kind 1 l;
      lr_body := concat (map snd (chans_of_kind 2 l)); lr_path_suffix := concat (map snd (chans_of_kind 3 l)) |}.
+Definition chan_model (pf fed : bool) (form : option bs) (l : list (N * bs * bs)) : bs :=
+  let r := req_of_case form l in
+  if fed then req_federated_location pf r else req_location pf r.
 Definition c17_chan_bad (c : chan_case) : bool :=
   let '(pf, fed, form, l, o) := c in
-  let r := req_of_case form l in
-  negb (bs_eqb (if fed then req_federated_location pf r else req_location pf r) o).
+  negb (bs_eqb (chan_model pf fed form l) o) &&
+  match chans_of_kind 4 l with
+  | (_, v) :: _ => negb (bs_eqb (chan_model false fed (Some v) l) o) && negb (bs_eqb (chan_model true fed (Some v) l) o)
+  | [] => true
+  end.
 Definition c17_chan_cls (c : chan_case) : N :=
   let '(_, _, _, _, o) := c in cls_of (c17_chan_bad c) (negb (same_origin o)).
